@@ -121,3 +121,66 @@ pub fn gen(ctx: &Ctx) {
     }
     out.finish();
 }
+
+
+// ---------------------------------------------------------------------------------------------
+// stream `poolsrv` (C13 at server level): serve() / serve_epoll() configured with thread_count(k) must let k handlers
+// make progress at the same time, whatever the other settings are.
+// case: `<pool|epoll> <k> <epoll_queue_max_events>`; impl: the k response statuses
+pub fn run_srv(case: &str) -> String {
+    crate::util::note_current(case);
+    use std::io::{Read, Write};
+    let f: Vec<&str> = case.split(' ').collect();
+    let (mode, k, maxev): (String, usize, usize) = (f[0].to_string(), f[1].parse().unwrap(), f[2].parse().unwrap());
+    crate::s_conn::MEET.store(0, Ordering::SeqCst);
+    let port = { let l = std::net::TcpListener::bind("127.0.0.1:0").unwrap(); l.local_addr().unwrap().port() };
+    let stop = Arc::new(AtomicBool::new(false));
+    let mut b = khttp::Server::builder(("127.0.0.1", port)).unwrap();
+    b.thread_count(k);
+    b.epoll_queue_max_events(maxev);
+    b.fallback_route(crate::s_conn::app);
+    { let stop = stop.clone(); b.connection_setup_hook(move |c| {
+        if stop.load(Ordering::SeqCst) { return khttp::ConnectionSetupAction::StopAccepting; }
+        match c { Ok((s, _)) => khttp::ConnectionSetupAction::Proceed(s), Err(_) => khttp::ConnectionSetupAction::Drop } }); }
+    let server = b.build();
+    let th = std::thread::spawn(move || { let _ = if mode == "pool" { server.serve() } else { server.serve_epoll() }; });
+    let connect = move || -> Option<std::net::TcpStream> {
+        let t = Instant::now();
+        loop { match std::net::TcpStream::connect(("127.0.0.1", port)) { Ok(s) => return Some(s), Err(_) => { if t.elapsed() > Duration::from_secs(2) { return None; } std::thread::sleep(Duration::from_millis(1)); } } }
+    };
+    let hs: Vec<_> = (0..k).map(|_| std::thread::spawn(move || -> String {
+        let mut s = match connect() { Some(s) => s, None => return "NOCONNECT".into() };
+        s.set_read_timeout(Some(Duration::from_secs(4))).unwrap();
+        let _ = s.write_all(format!("GET /meet/{k} HTTP/1.1\r\nConnection: close\r\n\r\n").as_bytes());
+        let mut buf = Vec::new();
+        let mut tmp = [0u8; 1024];
+        loop { match s.read(&mut tmp) { Ok(0) | Err(_) => break, Ok(n) => { buf.extend_from_slice(&tmp[..n]); if buf.windows(4).any(|w| w == b"\r\n\r\n") && buf.len() > 40 { break; } } } }
+        String::from_utf8_lossy(&buf).split(' ').nth(1).unwrap_or("NORESPONSE").to_string()
+    })).collect();
+    let outs: Vec<String> = hs.into_iter().map(|h| h.join().unwrap_or_else(|_| "PANIC".into())).collect();
+    stop.store(true, Ordering::SeqCst);
+    let _ = connect();
+    let t0 = Instant::now();
+    while !th.is_finished() && t0.elapsed() < Duration::from_secs(3) { std::thread::sleep(Duration::from_millis(2)); }
+    let _ = verif::take_log();
+    outs.join(",")
+}
+
+pub fn gen_srv(ctx: &Ctx) {
+    let mut out = Out::new(&ctx.dir, "poolsrv");
+    out.rule = "serve() and serve_epoll() with thread_count k in 2..4 (thorough ..8) and epoll_queue_max_events in {1, 2, 512}: k connections whose handlers answer 200 only once all k are running \
+                at the same time (503 after 2 s). non-trivial = all".into();
+    let kmax = if ctx.thorough { 8 } else { 4 };
+    for mode in ["pool", "epoll"] {
+        for k in 2..=kmax {
+            for maxev in [1usize, 2, 512] {
+                if mode == "pool" && maxev != 512 && k > 2 { continue; }
+                let case = format!("{mode} {k} {maxev}");
+                let r = run_srv(&case);
+                out.emit(&case, &r, &format!("{mode}/maxev{maxev}"), true);
+            }
+        }
+    }
+    let _ = ctx.seed;
+    out.finish();
+}
